@@ -105,3 +105,80 @@ def same(a, b):
     if symx.is_sym(a) and symx.is_sym(b):
         return a.t.eq(b.t)
     return False
+
+
+# -- numeric builtins as seen from a module under test -------------------------------------------------------
+import builtins as _builtins
+import math as _math
+
+
+def _sym_int(x=0, *a):
+    if symx.is_sym(x) or isinstance(x, symx.XF):
+        return symx.SInt(x) if symx.is_sym(x) else _builtins.int(x)
+    return _builtins.int(x, *a)
+
+
+def _sym_float(x=0.0):
+    if symx.is_sym(x):
+        return symx.SFloat(x)
+    if isinstance(x, symx.XF):
+        return x
+    return _builtins.float(x)
+
+
+class SymMath:
+    """`math` as seen from a module under test: floor/ceil/trunc on proxies stay symbolic, the rest is the
+    real module (and refuses proxies, as before)"""
+
+    def __getattr__(self, name):
+        return getattr(_math, name)
+
+    @staticmethod
+    def floor(x):
+        if symx.is_sym(x):
+            return symx.SInt(x // 1) if not isinstance(x, symx.SInt) else x
+        return _math.floor(x)
+
+    @staticmethod
+    def ceil(x):
+        if symx.is_sym(x):
+            return -SymMath.floor(-x)
+        return _math.ceil(x)
+
+    @staticmethod
+    def trunc(x):
+        if symx.is_sym(x):
+            return symx.SInt(x)
+        return _math.trunc(x)
+
+
+class _IntMeta(type):
+    def __instancecheck__(cls, obj):
+        return _builtins.isinstance(obj, (_builtins.int, symx.SInt))
+
+    def __call__(cls, x=0, *a):
+        return _sym_int(x, *a)
+
+
+class IntStub(metaclass=_IntMeta):
+    """`int` as seen from a module under test: converts proxies symbolically, isinstance() accepts them"""
+
+
+class _FloatMeta(type):
+    def __instancecheck__(cls, obj):
+        return _builtins.isinstance(obj, (_builtins.float, symx.SFloat, symx.XF))
+
+    def __call__(cls, x=0.0):
+        return _sym_float(x)
+
+
+class FloatStub(metaclass=_FloatMeta):
+    """`float` as seen from a module under test"""
+
+
+def numeric_stubs(module):
+    """patch triples that let int() / float() / math.floor / math.ceil act on proxies inside `module`"""
+    out = [(module, "int", IntStub), (module, "float", FloatStub)]
+    if hasattr(module, "math"):
+        out.append((module, "math", SymMath()))
+    return out
